@@ -52,7 +52,12 @@ impl TimerState {
 
     pub(super) fn init(&mut self, cx: &mut Context<'_>) {
         if let TimerState::Active { timer } = self {
-            let _ = timer.as_mut().poll(cx);
+            // Deadlines are computed from a clock that is cached for up to 500 ms, so a short
+            // timeout can already lie in the past here. The timer then completes in this very poll
+            // without registering a waker; ask for another poll so that its expiry is acted on.
+            if timer.as_mut().poll(cx).is_ready() {
+                cx.waker().wake_by_ref();
+            }
         }
     }
 }
